@@ -58,6 +58,12 @@ CHECKS["C14"] = dict(
     text="Every sequence (up to the completed depth) of clock steps placed one second before / two seconds inside each re-issue margin (manifest/CRL and object expiry), one hour and (with parent refresh and TA renewal) long jumps, content changes, key-roll steps (staging and old key sets present) and maintenance runs, under 2 (3 thorough) timing configurations: every key set within the margin is re-issued by exactly one number and published, sets and objects not due are untouched (nothing due => repository byte-identical), objects within their re-issue margin get a new serial and later expiry, manifest number == CRL number and never decreases, windows contain the present, payloads unchanged, tree RP-valid after the run.",
     note=E1_NOTE + " Krill's config validation forbids margin >= lifetime for manifests and ROAs, so 'equal/larger' margins cannot be configured for those; explored configurations are (24h/8h, 52w/4w), (2h/1h, 2w/1w), (3h/2h, 3w/2w).")
 
+CHECKS["C19"] = dict(
+    engine="E1", category="model_checking", design="4/C19",
+    technique="explicit-state exploration (fork-checkpointed DFS) over histories of successful and refused exchanges; after every operation the check itself performs the most recent parent and repository synchronisation of every CA and compares the status/issue views with the known outcome, the parent's list response and the server's content; restart differential on a forked copy",
+    text="Every sequence (up to the completed depth) of content changes, entitlement changes, child removal/re-add at the parent, publisher removal/re-add at the server, suspension, child/parent/CA removal, key-roll steps and restarts: for every CA and parent the status shows failure (with exactly the error of the attempt) iff the most recent attempt failed, otherwise the entitlements of the parent's last list response; the published-object list equals the server's list reply after the last successful sync; the parent shows the outcome of the child's last request; a restart changes no status field; removal of parent/child/CA removes the entries (also from storage).",
+    note=E1_NOTE + " Local exchanges bypass CMS, so one-sided identity replacement cannot fail here (C12 covers the signed path).")
+
 NOT_YET = {
 }
 
